@@ -432,6 +432,103 @@ func c20GenBlindRot(c *Ctx) {
 		c20BRCore(c, psBR, psL, evalBR, BRK, skBR, sBR, sL, tps[ci%len(tps)].poly, w, cfg.noTie)
 		QLb := c20ProdBig(QL)
 		llq := len(QL) - 1
+		// ---- several DIFFERENT test polynomials within ONE Evaluate call, in repeating / interleaved slot orders:
+		// every slot equals (bit for bit: Evaluate draws no randomness) the single-entry evaluation of its OWN polynomial
+		// on a fresh evaluator, and decrypts to the rotation of its own polynomial by the intended exponent (below).
+		{
+			polys := make([]*ring.Poly, len(tps))
+			for i := range tps {
+				polys[i] = &tps[i].poly
+			}
+			orders := [][]int{{0, 1, 0}, {0, 1, 2, 0, 1}, {0, 0, 1, 1, 0}, {1, 0, 1, 0, 1, 0, 1, 0}, {2, 1, 0, 2, 1, 0, 0}}
+			if c.Thorough() {
+				for k := 0; k < 4; k++ {
+					o := make([]int, 3+c.rng.Intn(NL-2))
+					kk := 2 + c.rng.Intn(2)
+					for i := range o {
+						o[i] = c.rng.Intn(kk)
+					}
+					orders = append(orders, o)
+				}
+			}
+			for oi, order := range orders {
+				if !c.Thorough() && (oi+ci)%2 == 1 && oi > 1 {
+					continue
+				}
+				mv := make([]*big.Int, NL)
+				for i := range mv {
+					m := new(big.Int).Mul(QLb, big.NewInt(int64(c.rng.Intn(N+1)-N/2)))
+					m.Div(m, big.NewInt(int64(2*N)))
+					mv[i] = m
+				}
+				c1 := make([][]uint64, llq+1)
+				for k := range c1 {
+					c1[k] = make([]uint64, NL)
+					for tt := range c1[k] {
+						c1[k][tt] = c.rng.Below(QL[k])
+					}
+				}
+				ctL := psL.mkCt(skL, psL.rowsFromBig(mv, llq), c1)
+				if (oi%2 == 1) != cfg.lweCoeff {
+					psL.params.RingQ().AtLevel(llq).INTT(ctL.Value[0], ctL.Value[0])
+					psL.params.RingQ().AtLevel(llq).INTT(ctL.Value[1], ctL.Value[1])
+					ctL.IsNTT = false
+				}
+				// slots: consecutive (oi even) or spread (oi odd) indices, in increasing order
+				slots := make([]int, 0, len(order))
+				for i := range order {
+					sIdx := i
+					if oi%2 == 1 {
+						sIdx = i * NL / len(order)
+					}
+					if sIdx < NL && (len(slots) == 0 || sIdx > slots[len(slots)-1]) {
+						slots = append(slots, sIdx)
+					}
+				}
+				tpm := map[int]*ring.Poly{}
+				desc := ""
+				for i, sIdx := range slots {
+					tpm[sIdx] = polys[order[i]%len(polys)]
+					desc += fmt.Sprintf("%d:%s,", sIdx, tps[order[i]%len(tps)].fn.name)
+				}
+				detail := ""
+				var res map[int]*rlwe.Ciphertext
+				out := Try(func() string {
+					var e error
+					res, e = evalBR.Evaluate(ctL, tpm, BRK)
+					if e != nil {
+						return "err: " + e.Error()
+					}
+					return "ok"
+				})
+				if out != "ok" {
+					detail = "Evaluate -> " + out
+				} else {
+					for i, sIdx := range slots {
+						single, e := blindrot.NewEvaluator(psBR.params, psL.params).Evaluate(ctL, map[int]*ring.Poly{sIdx: tpm[sIdx]}, BRK)
+						if e != nil || single[sIdx] == nil || res[sIdx] == nil {
+							detail = fmt.Sprintf("slot %d: missing result", sIdx)
+							break
+						}
+						if c20Polys(psBR.ctPolys(res[sIdx], lq)) != c20Polys(psBR.ctPolys(single[sIdx], lq)) {
+							// which polynomial did it use?
+							used := "none of the requested polynomials"
+							for j := range polys {
+								alt, e2 := blindrot.NewEvaluator(psBR.params, psL.params).Evaluate(ctL, map[int]*ring.Poly{sIdx: polys[j]}, BRK)
+								if e2 == nil && c20Polys(psBR.ctPolys(res[sIdx], lq)) == c20Polys(psBR.ctPolys(alt[sIdx], lq)) {
+									used = "the polynomial " + tps[j].fn.name
+								}
+							}
+							detail = fmt.Sprintf("slot %d (position %d of %s) was requested with %s; the result is not the evaluation of that polynomial: it is the evaluation of %s", sIdx, i, desc, tps[order[i]%len(tps)].fn.name, used)
+							break
+						}
+					}
+				}
+				c.Probe("blindrot_multi_poly", fmt.Sprintf("n=%d nl=%d nQ=%d nP=%d w=%d order=%s distinct=%d lweNTT=%v seed=%d line=%d", N, NL, len(Q), len(P), w, desc, c20Distinct(order), ctL.IsNTT, c.Seed, c.N),
+					"blindrot-multi-poly", detail)
+				c.Count(fmt.Sprintf("br:multi-poly distinct=%d slots=%d", c20Distinct(order), len(slots)))
+			}
+		}
 		// grid points k in [-N/2, N/2], NL of them per LWE sample
 		var grid []int
 		for k := -N / 2; k <= N/2; k++ {
@@ -1024,4 +1121,12 @@ func c20MonomialInts(N int, e int64) []int64 {
 		g[r-N] = -1
 	}
 	return g
+}
+
+func c20Distinct(o []int) int {
+	m := map[int]bool{}
+	for _, v := range o {
+		m[v] = true
+	}
+	return len(m)
 }
